@@ -20,6 +20,7 @@ CONSTANTS
   DTs = {1}
   Jumps <- JumpsCover
   GenVersions = {1}
+  VSet = 0
   MaxHeight = 1
   FocusVals = {1, 4}
 VIEW GView
